@@ -330,6 +330,143 @@ fn check_reader(o: &mut Out, r: &mut Rng, t: &Ty, v: &Val) {
     }
 }
 
+
+/// the same chunked writer / reader behind the embedded-io 0.6 traits (no Interrupted retry, a
+/// write of Ok(0) is a contract violation there, so only Err-reporting failures are injected)
+pub struct EW(pub ChunkWriter);
+impl embedded_io::ErrorType for EW {
+    type Error = embedded_io::ErrorKind;
+}
+impl embedded_io::Write for EW {
+    fn write(&mut self, buf: &[u8]) -> Result<usize, Self::Error> {
+        Write::write(&mut self.0, buf).map_err(|_| embedded_io::ErrorKind::Other)
+    }
+    fn flush(&mut self) -> Result<(), Self::Error> {
+        Write::flush(&mut self.0).map_err(|_| embedded_io::ErrorKind::Other)
+    }
+}
+pub struct ER(pub ChunkReader);
+impl embedded_io::ErrorType for ER {
+    type Error = embedded_io::ErrorKind;
+}
+impl embedded_io::Read for ER {
+    fn read(&mut self, buf: &mut [u8]) -> Result<usize, Self::Error> {
+        Read::read(&mut self.0, buf).map_err(|_| embedded_io::ErrorKind::Other)
+    }
+}
+
+fn check_eio(o: &mut Out, r: &mut Rng, t: &Ty, v: &Val) {
+    let ts = t.to_string();
+    let vs = v.to_string();
+    let plain = match postcard::to_allocvec(v) {
+        Ok(b) => b,
+        Err(_) => return,
+    };
+    // ---- to_eio ----
+    for sched in schedules(r) {
+        let w = EW(ChunkWriter { accepted: Vec::new(), schedule: sched.clone(), turn: 0, fail_at: None, flush_fails: false, zero_at_fail: false });
+        o.eval(&("ew", &vs, &sched), !plain.is_empty());
+        take_wlog();
+        let got = guarded(|| postcard::to_eio(v, w));
+        let events = take_wlog();
+        if events.len() < 4000 {
+            if let Ok(Ok(w)) = &got {
+                o.case("toioc", &[&vs, &events, "0"], &format!("ok {}", hex(&w.0.accepted)));
+            }
+        }
+        match got {
+            Ok(Ok(w)) if w.0.accepted == plain => {}
+            other => o.fail("writing through an embedded-io writer produces exactly the plain encoding", format!("{} schedule {:?}", vs, sched), format!("{:?}", other.map(|r| r.map(|w| hex(&w.0.accepted)))), hex(&plain)),
+        }
+        o.bump("eio_writer:ok");
+    }
+    for k in 0..plain.len() {
+        let all_s = schedules(r);
+        let sched = r.pick(&all_s).clone();
+        let w = EW(ChunkWriter { accepted: Vec::new(), schedule: sched, turn: 0, fail_at: Some(k), flush_fails: false, zero_at_fail: false });
+        take_wlog();
+        let got = guarded(|| postcard::to_eio(v, w).map(|_| ()));
+        let events = take_wlog();
+        if k % 3 == 1 && events.len() < 4000 {
+            if let Ok(Err(e)) = &got {
+                o.case("toioc", &[&vs, &events, "0"], &format!("err:{:?}", e));
+            }
+        }
+        o.eval(&("ewf", &vs, k), true);
+        match got {
+            Ok(Err(postcard::Error::SerializeBufferFull)) => {}
+            other => o.fail("an embedded-io writer that fails produces an error, never a panic", format!("{} fail_at {}", vs, k), format!("{:?}", other), "Err(SerializeBufferFull)".into()),
+        }
+        o.bump("eio_writer:fail_injected");
+    }
+    let w = EW(ChunkWriter { accepted: Vec::new(), schedule: vec![3], turn: 0, fail_at: None, flush_fails: true, zero_at_fail: false });
+    match guarded(|| postcard::to_eio(v, w).map(|_| ())) {
+        Ok(Err(postcard::Error::SerializeBufferFull)) => {}
+        other => o.fail("a failing embedded-io flush is an error", vs.clone(), format!("{:?}", other), "Err(SerializeBufferFull)".into()),
+    }
+    // ---- from_eio ----
+    let need = scratch_needed(v);
+    let mut stream = plain.clone();
+    let suffix = r.bytes_upto(6);
+    stream.extend_from_slice(&suffix);
+    for sched in schedules(r) {
+        for scratch_len in [need, need + 3] {
+            let mut scratch = vec![0xEEu8; scratch_len];
+            let rd = ER(ChunkReader { data: stream.clone(), pos: 0, schedule: sched.clone(), turn: 0, fail_at: None });
+            take_log();
+            let got = guarded(|| with_ty(t, || postcard::from_eio::<Dyn, _>((rd, &mut scratch)).map(|(d, (rd, unused))| (d.0, rd.0.pos, unused.len()))));
+            let events = take_log();
+            o.eval(&("er", &ts, &stream, &sched, scratch_len), !plain.is_empty());
+            if let Ok(Ok((back, pos, unused))) = &got {
+                if events.len() < 4000 {
+                    o.case("fromioc", &[&ts, &hex(&stream), &events, &scratch_len.to_string()], &format!("ok {} {} {} {}", back, hex(&stream[*pos..]), scratch_len - unused, hex(&scratch)));
+                }
+            }
+            match got {
+                Ok(Ok((back, pos, unused))) if back == *v && pos == plain.len() && unused == scratch_len - need => {}
+                other => o.fail("reading through an embedded-io reader yields the value, consumes exactly the message and returns the unused scratch", format!("{} bytes {} schedule {:?} scratch {}", ts, hex(&stream), sched, scratch_len), format!("{:?}", other.map(|r| r.map(|(v, p, u)| format!("{} {} {}", v, p, u)))), format!("{} {} {}", vs, plain.len(), scratch_len - need)),
+            }
+            o.bump("eio_reader:ok");
+        }
+    }
+    for scratch_len in 0..need {
+        let mut scratch = vec![0xEEu8; scratch_len];
+        let rd = ER(ChunkReader { data: stream.clone(), pos: 0, schedule: vec![2], turn: 0, fail_at: None });
+        let got = guarded(|| with_ty(t, || postcard::from_eio::<Dyn, _>((rd, &mut scratch)).map(|(d, _)| d.0)));
+        o.eval(&("ers", &ts, &stream, scratch_len), true);
+        match &got {
+            Ok(Err(postcard::Error::DeserializeUnexpectedEnd)) => {}
+            other => o.fail("an embedded-io scratch buffer that is too small produces an error", format!("{} bytes {} scratch {} of {}", ts, hex(&stream), scratch_len, need), format!("{:?}", other.as_ref().map(|r| r.as_ref().map(|v| v.to_string()))), "Err(DeserializeUnexpectedEnd)".into()),
+        }
+        o.bump("eio_reader:scratch_too_small");
+    }
+    for k in 0..plain.len() {
+        let all_s = schedules(r);
+        for ends in [true, false] {
+            let mut scratch = vec![0xEEu8; need + 1];
+            let rd = if ends {
+                ER(ChunkReader { data: plain[..k].to_vec(), pos: 0, schedule: r.pick(&all_s).clone(), turn: 0, fail_at: None })
+            } else {
+                ER(ChunkReader { data: stream.clone(), pos: 0, schedule: r.pick(&all_s).clone(), turn: 0, fail_at: Some(k) })
+            };
+            take_log();
+            let got = guarded(|| with_ty(t, || postcard::from_eio::<Dyn, _>((rd, &mut scratch)).map(|(d, _)| d.0)));
+            let events = take_log();
+            if !ends && k % 3 == 1 && events.len() < 4000 {
+                if let Ok(Err(e)) = &got {
+                    o.case("fromioc", &[&ts, &hex(&stream), &events, &(need + 1).to_string()], &format!("err:{:?}", e));
+                }
+            }
+            o.eval(&("erf", &ts, &stream, k, ends), true);
+            match &got {
+                Ok(Err(postcard::Error::DeserializeUnexpectedEnd)) => {}
+                other => o.fail("an embedded-io stream that ends or fails inside the message produces an error, never a panic", format!("{} bytes {} at {} ({})", ts, hex(&stream), k, if ends { "ends" } else { "fails" }), format!("{:?}", other.as_ref().map(|r| r.as_ref().map(|v| v.to_string()))), "Err(DeserializeUnexpectedEnd)".into()),
+            }
+            o.bump(if ends { "eio_reader:stream_ends" } else { "eio_reader:fail_injected" });
+        }
+    }
+}
+
 /// borrowed data lands in disjoint parts of the scratch buffer, in decode order
 fn check_borrowed(o: &mut Out, r: &mut Rng) {
     let s1 = String::from_utf8(gen::gen_string(r, 12)).unwrap();
@@ -404,6 +541,7 @@ pub fn run(a: &Args) {
         }
         check_writer(&mut o, &mut r, &v);
         check_reader(&mut o, &mut r, &t, &v);
+        check_eio(&mut o, &mut r, &t, &v);
         if done % 3 == 0 {
             check_borrowed(&mut o, &mut r);
             check_consecutive(&mut o, &mut r);
@@ -414,5 +552,5 @@ pub fn run(a: &Args) {
         done += 1;
     }
     let _ = IK::U8;
-    o.finish(&a.summary, "generated shapes/values (encoding <= 120 bytes) x std::io writers/readers that move data 1 byte at a time, in random short pieces or all at once x failure injected at every byte offset x scratch sizes 0..required+5 x borrowed-data placement x 2-4 consecutive messages on one stream; distinct = distinct (direction, shape, bytes, schedule, fault point / scratch size)");
+    o.finish(&a.summary, "generated shapes/values (encoding <= 120 bytes) x std::io and embedded-io 0.6 writers/readers that move data 1 byte at a time, in random short pieces or all at once x failure injected at every byte offset x scratch sizes 0..required+5 x borrowed-data placement x 2-4 consecutive messages on one stream; distinct = distinct (direction, shape, bytes, schedule, fault point / scratch size)");
 }
